@@ -29,7 +29,13 @@ X_CONT = ["ndarray", "dataframe"]
 SF_MULTI_CONT = ["dataframe", "dict", "ndarray2d"]
 SF_SINGLE_CONT = ["list", "ndarray", "series", "dataframe", "dict", "ndarray2d"]
 PREDICTORS = ["eg.predict", "eg._pmf_predict", "gs.predict", "gs.predict_proba", "to.predict", "to._pmf_predict",
-              "corr.transform", "adv.predict", "it.predict"]
+              "corr.transform", "adv.predict", "it.predict",
+              "it._pmf_predict", "adv._raw_predict", "advr.predict", "advr._raw_predict"]
+CLASS_OF = {"eg": "ExponentiatedGradient", "gs": "GridSearch", "to": "ThresholdOptimizer", "it": "InterpolatedThresholder",
+            "corr": "CorrelationRemover", "adv": "_AdversarialFairness", "advr": "_AdversarialFairness"}
+# every (class, method) the lifted guard table lists must be exercised by PREDICTORS (checked in judge)
+SP_MODES = ["none", "ok", "ok", "empty", "notdict:list", "notdict:tuple", "notdict:str", "notdict:num", "notdict:emptylist",
+            "unknown_key", "inner:list", "inner:num", "inner:str"]
 BAD_LABELS = [2, -1, "1/2", 3, "s:1", "s:a", "nan"]   # "s:x" = the string x
 
 
@@ -184,9 +190,12 @@ class CHECK(Check):
     level_text = ("Theorems: for every descriptor, an entry point accepts iff the descriptor is well formed; each listed defect "
                   "(length mismatch in any argument position, label outside {0,1}, missing sensitive feature, degenerate group, "
                   "unsupported combination, control features for ThresholdOptimizer, both bounds / ratio outside (0,1], bad costs, "
-                  "constraint_weight outside [0,1], duplicate or non-string names, predict before fit) forces rejection; the "
+                  "constraint_weight outside [0,1], duplicate or non-string names, predict before fit for EVERY prediction "
+                  "entry point in the lifted guard table, prediction-time sensitive features of the wrong length / missing for "
+                  "ThresholdOptimizer, sample_params that is no dict / names an unknown metric / holds a non-dict) forces rejection; the "
                   "constraint x objective table, the bounds/costs/weight conditions and the degenerate-label guard are generated "
-                  "from the source. Tie: one-defect malformed stream and valid stream through MetricFrame, the six moments' "
+                  "from the source, as are the check_is_fitted guard of every prediction entry point, the keyword values of the "
+                  "prediction-time _validate_and_reformat_input call and the sample_params checks of MetricFrame. Tie: one-defect malformed stream and valid stream through MetricFrame, the six moments' "
                   "load_data, ExponentiatedGradient/GridSearch/ThresholdOptimizer.fit, the constructors, CorrelationRemover and "
                   "predict-before-fit of every estimator, in list/ndarray/Series/DataFrame/dict containers.")
     design_ref = "DESIGN.md section 4, C20"
@@ -201,7 +210,11 @@ class CHECK(Check):
             "omitted) / missing y, a group lacking one label (ThresholdOptimizer), unsupported or unknown constraint/objective, "
             "control features for ThresholdOptimizer, both bounds, ratio_bound outside (0,1], bad cost dicts, constraint_weight "
             "outside [0,1], duplicate / non-string feature names, predict or transform before fit, unknown sensitive column for "
-            "CorrelationRemover; about 40% of the cases carry no defect (must be accepted); distinct = distinct case; non-trivial = all")
+            "CorrelationRemover; every prediction entry point (predict, predict_proba, _pmf_predict, transform, _raw_predict of "
+            "TO, InterpolatedThresholder, EG, GS, CorrelationRemover, adversarial classifier and regressor) before fit in every "
+            "run; ThresholdOptimizer.predict/_pmf_predict with sensitive_features off by k or None (fitted and unfitted) in "
+            "every vector container; MetricFrame sample_params: None, valid, {}, list/tuple/str/number/[] instead of a dict, a key "
+            "that is no metric name, a per-metric list/number/str; about 40% of the cases carry no defect (must be accepted); distinct = distinct case; non-trivial = all")
     explanation = ("decision logic proved in Lean over generated tables/conditions; correspondence: outcome class (ok / exception "
                    "kind) of the real call vs the compiled model on the call's descriptor; oracle: independent Python predicate "
                    "of well-formedness on the arguments as rendered; violation = ok on an ill-formed call (or a prediction "
@@ -449,10 +462,46 @@ class CHECK(Check):
 
     def gen_predict(self, rng):
         est = rng.choice(PREDICTORS)
-        fitted = rng.random() < 0.25 and est not in ("adv.predict",)
+        fitted = rng.random() < 0.25 and not est.startswith("adv")
         n, X, y, sf = self._base_data(rng)
         return {"ep": "predict", "est": est, "fitted": fitted, "n": n, "X": X, "y": y, "sf": sf,
                 "cont": {"X": rng.choice(X_CONT)}, "defect": None if fitted else "unfitted"}
+
+    def gen_topredict(self, rng, defect=None):
+        """ThresholdOptimizer / InterpolatedThresholder at prediction time: sensitive features of the wrong length / None"""
+        n, X, y, sf = self._base_data(rng)
+        npred = rng.randint(1, 8)
+        Xp = [[rng.randint(-3, 3), rng.randint(0, 2)] for _ in range(npred)]
+        groups = sorted(set(sf))
+        sfp = [rng.choice(groups) for _ in range(npred)]
+        if defect is None:
+            defect = rng.choice(["none", "none", "len", "len", "len", "nosf", "unfitted", "unfitted+len"])
+        fitted = not defect.startswith("unfitted")
+        if "len" in defect:
+            k = rng.choice([1, 1, 2, 3, npred - 1, npred]) if npred > 1 else rng.choice([1, 2])
+            k = k if rng.random() < 0.5 or k >= npred else -k
+            if k == 0:
+                k = 1
+            sfp = self._resize(rng, sfp, k, lambda r: r.choice(groups))
+            if not sfp:
+                sfp = [groups[0]] * (npred + 1)
+        if defect == "nosf":
+            sfp = None
+        return {"ep": "topredict", "meth": rng.choice(["predict", "_pmf_predict"]), "fitted": fitted, "X": X, "y": y, "sf": sf,
+                "Xp": Xp, "sfp": sfp, "sf_enc": rng.choice(["int", "str"]),
+                "cont": {"X": rng.choice(X_CONT), "sfp": rng.choice(VEC_CONT)}, "defect": None if defect == "none" else defect}
+
+    def gen_framefns(self, rng, mode=None):
+        """MetricFrame sample_params: not a dict, a key that is not a metric name, a per-metric value that is not a dict"""
+        n, X, y, sf = self._base_data(rng)
+        form = rng.choice(["single", "dict", "dict2"])
+        mode = mode or rng.choice(SP_MODES)
+        if form == "single" and mode in ("unknown_key",) + tuple(m for m in SP_MODES if m.startswith("inner")):
+            form = "dict"
+        bad = mode.startswith("notdict") or mode == "unknown_key" or mode.startswith("inner")
+        return {"ep": "framefns", "form": form, "mode": mode, "y_true": y, "y_pred": [rng.randint(0, 1) for _ in range(n)], "sf": sf,
+                "w": [rng.randint(1, 3) for _ in range(n)], "target": rng.choice(["sel", "acc"]) if form == "dict2" else "sel",
+                "defect": ("sample_params:" + mode) if bad else None}
 
     def gen_corr(self, rng):
         m = rng.randint(2, 4)
@@ -491,6 +540,17 @@ class CHECK(Check):
         for cw in ["0", "1", "-1/1048576", "1048577/1048576", "1/2", "-1", "2"]:
             ok = 0 <= F(cw) <= 1
             yield {"ep": "gsctor", "cw": cw, "defect": None if ok else f"cw:{cw}"}
+        for est in PREDICTORS:
+            n, X, y, sf = self._base_data(rng)
+            yield {"ep": "predict", "est": est, "fitted": False, "n": n, "X": X, "y": y, "sf": sf,
+                   "cont": {"X": rng.choice(X_CONT)}, "defect": "unfitted"}
+        for mode in SP_MODES:
+            yield self.gen_framefns(rng, mode)
+        for cont in VEC_CONT:
+            for defect in ("len", "nosf", "unfitted+len"):
+                case = self.gen_topredict(rng, defect)
+                case["cont"]["sfp"] = cont
+                yield case
 
     def generate(self, rng, tier):
         yield from self.table_sweep(rng)
@@ -502,8 +562,12 @@ class CHECK(Check):
                 yield self.gen_frame(rng)
             elif r < 0.88:
                 yield self.gen_ctor(rng)
-            elif r < 0.95:
+            elif r < 0.92:
                 yield self.gen_predict(rng)
+            elif r < 0.95:
+                yield self.gen_topredict(rng)
+            elif r < 0.975:
+                yield self.gen_framefns(rng)
             else:
                 yield self.gen_corr(rng)
 
@@ -628,6 +692,14 @@ class CHECK(Check):
             return ok, None if ok else "RuntimeError", "C20.constraint_weight_rejected" if not ok else "C20.accepts_iff_wellFormed"
         if ep == "predict":
             return case["fitted"], None if case["fitted"] else "NotFittedError", "C20.predict_before_fit_rejected"
+        if ep == "topredict":
+            if not case["fitted"]:
+                return False, "NotFittedError", "C20.predict_before_fit_rejected"
+            ok = case["sfp"] is not None and len(case["sfp"]) == len(case["Xp"])
+            return ok, None, "C20.predict_time_sensitive_rejected" if not ok else "C20.accepts_iff_wellFormed"
+        if ep == "framefns":
+            ok = case["defect"] is None
+            return ok, None, "C20.frame_sample_params_rejected" if not ok else "C20.accepts_iff_wellFormed"
         if ep == "corrfit":
             m = len(case["X"][0])
             valid = set(range(m)) if case["cont"] == "ndarray" else set(case["names"])
@@ -683,7 +755,18 @@ class CHECK(Check):
         if ep == "gsctor":
             return [] if case["cw"] == "nan" else [f"val.gs 1 1 {proto.rat(F(case['cw']))}"]
         if ep == "predict":
-            return [f"val.predict {proto.b(case['fitted'])}"]
+            kind, meth = case["est"].split(".")
+            return [f"val.predictm {proto.s(CLASS_OF[kind])} {proto.s(meth)} {proto.b(case['fitted'])}",
+                    f"val.predict {proto.b(case['fitted'])}"]
+        if ep == "topredict":
+            sfp = case["sfp"]
+            return [f"val.topredict {proto.b(case['fitted'])} {proto.b(sfp is not None)} {len(case['Xp'])} {0 if sfp is None else len(sfp)}"]
+        if ep == "framefns":
+            mode, form = case["mode"], case["form"]
+            given = mode != "none"
+            is_dict = given and not mode.startswith("notdict")
+            return [f"val.framefns {proto.b(given)} {proto.b(is_dict)} {proto.b(form != 'single')} "
+                    f"{proto.b(mode != 'unknown_key')} {proto.b(not mode.startswith('inner'))}"]
         if ep == "corrfit":
             m = len(case["X"][0])
             ids = [(i["raw"] if isinstance(i["raw"], int) and i["raw"] >= 0 and case["cont"] == "ndarray" else 99) if isinstance(i, dict) else i
@@ -779,19 +862,52 @@ class CHECK(Check):
                 from fairlearn.postprocessing._interpolated_thresholder import InterpolatedThresholder
                 est = InterpolatedThresholder(make_learner(), {}, predict_method="predict_proba")
                 fit = lambda: est.fit(X, y)  # noqa: E731
-                call = lambda: est.predict(X, sensitive_features=sf)  # noqa: E731
+                call = lambda: getattr(est, meth)(X, sensitive_features=sf)  # noqa: E731
             elif kind == "corr":
                 est = CorrelationRemover(sensitive_feature_ids=[0] if case["cont"]["X"] == "ndarray" else ["f0"])
                 fit = lambda: est.fit(X)  # noqa: E731
                 call = lambda: est.transform(X)  # noqa: E731
             else:
-                from fairlearn.adversarial import AdversarialFairnessClassifier
-                est = AdversarialFairnessClassifier(backend="torch")
+                from fairlearn.adversarial import AdversarialFairnessClassifier, AdversarialFairnessRegressor
+                est = (AdversarialFairnessRegressor if kind == "advr" else AdversarialFairnessClassifier)(backend="torch")
                 fit = None
-                call = lambda: est.predict(X)  # noqa: E731
+                call = lambda: getattr(est, meth)(X)  # noqa: E731
             if case["fitted"]:
                 fit()
             return {"out": outcome(call)}
+        if ep == "topredict":
+            X = render_X(case["X"], case["cont"]["X"])
+            y, sf = np.array(case["y"]), np.array(case["sf"])
+            est = ThresholdOptimizer(estimator=make_learner(), grid_size=20, predict_method="predict_proba")
+            if case["fitted"]:
+                est.fit(X, y, sensitive_features=sf)
+            Xp = render_X(case["Xp"], case["cont"]["X"])
+            sfp = None if case["sfp"] is None else render_vec(case["sfp"], case["cont"]["sfp"], "sf", "int")
+            return {"out": outcome(lambda: getattr(est, case["meth"])(Xp, sensitive_features=sfp))}
+        if ep == "framefns":
+            from sklearn.metrics import accuracy_score
+            w = [float(v) for v in case["w"]]
+            form, mode = case["form"], case["mode"]
+            metrics = {"single": selection_rate, "dict": {"sel": selection_rate},
+                       "dict2": {"acc": accuracy_score, "sel": selection_rate}}[form]
+            good = {"sample_weight": w} if form == "single" else {case["target"]: {"sample_weight": w}}
+            if mode == "none":
+                sp = None
+            elif mode == "ok":
+                sp = good
+            elif mode == "empty":
+                sp = {}
+            elif mode.startswith("notdict"):
+                sp = {"list": [("sample_weight", w)], "tuple": ("sample_weight", w), "str": "sample_weight", "num": 3,
+                      "emptylist": []}[mode.split(":")[1]]
+            elif mode == "unknown_key":
+                sp = dict(good, **{"selection_rate": {"sample_weight": w}})
+            else:
+                inner = {"list": w, "num": 1.0, "str": "sample_weight"}[mode.split(":")[1]]
+                sp = {case["target"]: inner}
+            kw = {} if sp is None and mode == "none" else {"sample_params": sp}
+            return {"out": outcome(lambda: MetricFrame(metrics=metrics, y_true=case["y_true"], y_pred=case["y_pred"],
+                                                       sensitive_features=case["sf"], **kw))}
         if ep in ("corrfit", "corrtransform"):
             a = np.array(case["X"], dtype=float)
             X = pd.DataFrame(a, columns=case["names"]) if case["cont"] == "dataframe" else a
@@ -838,8 +954,9 @@ class CHECK(Check):
             if got == "ok":
                 probs.append(Problem("property", f"ill-formed call ({case.get('defect')}) was silently accepted by {self.describe(case)}", rel))
             elif kind is not None and got != kind:
-                if case["ep"] == "predict":
-                    probs.append(Problem("property", f"{case['est']} before fit raised {got}, not NotFittedError", rel))
+                if case["ep"] in ("predict", "topredict"):
+                    probs.append(Problem("property", f"{case.get('est', 'to.' + case.get('meth', ''))} before fit raised {got}, "
+                                         f"not NotFittedError", rel))
                 else:
                     probs.append(Problem("correspondence", f"expected {kind}, got {got}", rel))
         elif got != "ok":
